@@ -77,6 +77,15 @@ expressions("Second")
 b = a*q - x**2
 dy_dt = a + q*y + t
 """,
+    # the renamed state and parameter (x, p) are declared but never referenced on a right-hand side, so
+    # names the grammar reserves inside expressions (abs, exp, floor, ...) are accepted for them
+    """states(x={x0}, y=2.5)
+parameters(p=0.75, q=-1.5)
+a = q*y + {abs}(y) + abs(q)*exp(-y*y) + sqrt(y*y + 1) + floor(q) + Mod(q, 3) + log(y*y + 1) + tan(q) + atan(y)
+b = a*q - y**2 + Conditional(And(Gt(y, 0), Lt(y, 9), Gt(q, -9)), sin(q), cos(q)) + abs(y - 3)
+dx_dt = b - a
+dy_dt = a + q*y + t
+""",
 ]
 
 
@@ -286,17 +295,17 @@ def extra(tier, seed):
         core = sorted(set(INTERNAL + ["abs", "exp", "log", "sqrt", "floor", "sin", "cos", "tan", "min", "max", "minimum", "maximum", "where", "sign", "logical_and", "logical_or", "logical_not", "pi", "e", "mod", "power", "fmod", "fabs", "pow"]))
         import multiprocessing as mp
 
-        triples = [(i, r, "numpy", 0) for i in core for r in ("state", "parameter", "intermediate")]
+        triples = [(i, r, "numpy", k) for i in core for r in ("state", "parameter", "intermediate") for k in (0, 3) if not (k == 3 and r == "intermediate")]
         with mp.get_context("fork").Pool(16) as pool:
             res = pool.map(_one, triples, chunksize=4)
         for triple, sig, detail, labs in res:
             ident, role, backend = triple[:3]
             out["evaluations"] += 1
-            case = {"model": odeparse.parse_model(BASES[0].format(x0="1.25", abs="abs")), "identifier": ident, "source": "static", "role": role, "backend": backend}
+            case = {"model": odeparse.parse_model(BASES[triple[3]].format(x0="1.25", abs="abs")), "identifier": ident, "source": "static", "role": role, "backend": backend}
             if sig is not None:
                 out["failures"].append((sig, case, detail))
             else:
-                out["nontrivial"].append(X.sha([ident, role, backend, 0]))
+                out["nontrivial"].append(X.sha([ident, role, backend, triple[3]]))
         out["coverage"] = {"core_identifiers_enumerated": len(core)}
         return out
 
